@@ -494,6 +494,10 @@ func runC13(c *core.Ctx) error {
 		}
 		c.Sample(last)
 	}
+	// call histories (SchemaApi_number.cfg): results do not depend on earlier calls, returned values stay intact
+	if err := runObjHistories(c, objKinds["number"], objPairs([]string{"0.5", "-0.25", "5e-1", "125e-3", "0.05", "1.5", "0", "-0", "10", "1e2", "0.50", "12345678901234567890.5", "0.9", "-0.9e0", "1e-3", "x"}, c.Pick(16, 64), c.Seed)); err != nil {
+		return err
+	}
 	c.Set("rule", "grammar: every string <= N over {-,+,.,0,digit,e,E,x} reachable in the TLC-dumped recogniser, verdict compared with NewNumber; values: num/cmp observations of the real code (all small accepted texts, random pairs of them, long numbers respelled with exponent shifts up to 2500 and last-digit neighbours) validated line by line by TLC against NumberTrace. distinct_nontrivial = distinct (recogniser state, length) classes + distinct shape pairs compared")
 	c.Assume = append(c.Assume, "exponents beyond +-2500 are not part of the value oracle (TLC integers); they are C02's concern")
 	return nil
@@ -502,6 +506,9 @@ func runC13(c *core.Ctx) error {
 func init() {
 	register(&core.Check{ID: "C13", Level: "model_checking", Run: runC13,
 		Replay: func(c *core.Ctx, raw json.RawMessage) ([]core.Finding, error) {
+			if fs, ok := objReplayCase(raw); ok {
+				return fs, nil
+			}
 			var cs numCase
 			if err := json.Unmarshal(raw, &cs); err != nil {
 				return nil, err
